@@ -53,20 +53,23 @@ class Result:
         self.end = None
         self.stats = {}
         for e in events:
-            if e.kind == "!fault":
-                k, o, n, p = e.payload.split(" ")
-                self.faults.append([k, int(o), int(n), int(p)])
-            elif e.kind == "!probe":
-                k, n = e.payload.split(" ")
-                self.probes[k] = int(n)
-            elif e.kind == "!faults":
-                k, n = e.payload.split(" ")
-                self.fault_counts[k] = int(n)
-            elif e.kind == "!end":
-                self.end = e
-            elif e.kind == "!stats":
-                parts = e.payload.split(" ")
-                self.stats[parts[0]] = dict(p.split("=") for p in parts[1:])
+            try:
+                if e.kind == "!fault":
+                    k, o, n, p = e.payload.split(" ")
+                    self.faults.append([k, int(o), int(n), int(p)])
+                elif e.kind == "!probe":
+                    k, n = e.payload.split(" ")
+                    self.probes[k] = int(n)
+                elif e.kind == "!faults":
+                    k, n = e.payload.split(" ")
+                    self.fault_counts[k] = int(n)
+                elif e.kind == "!end":
+                    self.end = e
+                elif e.kind == "!stats":
+                    parts = e.payload.split(" ")
+                    self.stats[parts[0]] = dict(p.split("=") for p in parts[1:])
+            except ValueError:
+                continue    # last line of a history cut short by a kill
 
     @property
     def outcome(self):
